@@ -17,7 +17,7 @@ echo "== existing suite with patch only"
 git apply $seed/patch.diff
 nice -n 5 cargo nextest run --workspace --offline --no-fail-fast --test-threads 8 --failure-output never --success-output never --status-level fail --final-status-level fail > /tmp/confirm_$1_suite.log 2>&1
 echo "suite_exit=$?"
-grep -E "^\s+(FAIL|SIGABRT|SIGSEGV|TIMEOUT)" /tmp/confirm_$1_suite.log | sed -E 's/^\s+\S+ \[[^]]*\] //' | sort -u > /tmp/confirm_$1_fail.txt
+grep -E "^\s+(FAIL|SIGABRT|SIGSEGV|TIMEOUT)" /tmp/confirm_$1_suite.log | sed -E 's/^\s+\S+ \[[^]]*\] //; s/^\( *[0-9]+\/[0-9]+\) //' | sort -u > /tmp/confirm_$1_fail.txt
 grep -E "Summary" /tmp/confirm_$1_suite.log
 if [ -f /tmp/baseline_fail.txt ]; then echo "new failures vs clean baseline:"; comm -13 /tmp/baseline_fail.txt /tmp/confirm_$1_fail.txt | head -20; echo "(end of new failures)"; fi
 git checkout -q -- . ; git clean -fdq -e SEED -e target
